@@ -55,7 +55,7 @@ def _run_task(arg):
         c = REGISTRY[key]
         cfg = Config()
         if tier == "thorough":
-            cfg.oblig_timeout_ms = 60000
+            cfg.oblig_timeout_ms = 180000
         from .engine import Explorer
 
         if getattr(c, "static_only", False):
